@@ -129,15 +129,20 @@ int main(int argc, char** argv) {
             Call cc = call(F, xx, order == 1 ? 1 : 2, use_dig ? &dig : nullptr); ++calls;
             if (cc.has_err) { verdict = -1; return; }
             int lo = std::min(i, jcol), hi = std::max(i, jcol), nn = (int)xx.size(); double analytic = order == 1 ? cc.d[i] : cc.h[lo * (2 * nn - lo - 1) / 2 + hi];   // upper triangle by rows, as test/gsl-test.cc indexes it
-            auto g = [&](double t, double& out) { std::vector<double> y = xx; y[i] = t; Call q = call(F, y, order == 1 ? 0 : 1, use_dig ? &dig : nullptr); ++calls; if (q.has_err) return false; out = order == 1 ? q.value : q.d[jcol]; return std::isfinite(out); };
+            double fmax = 0;      // largest sampled magnitude: differences of samples carry rounding noise of about eps*fmax
+            auto g = [&](double t, double& out) { std::vector<double> y = xx; y[i] = t; Call q = call(F, y, order == 1 ? 0 : 1, use_dig ? &dig : nullptr); ++calls; if (q.has_err) return false; out = order == 1 ? q.value : q.d[jcol]; if (std::isfinite(out)) fmax = std::max(fmax, std::fabs(out)); return std::isfinite(out); };
             // three step scales: a singularity or a kink closer than the first step (e.g. legendre_Q1 at 1.0014) makes the extrapolation converge to
             // a wrong value with a small error estimate; a genuine derivative error disagrees at every scale
             if (!std::isfinite(analytic)) { verdict = -1; return; }
             int best = -1;
             for (double scale : {1.0, 1e-2, 1e-4}) {
               double num, err; double h0 = scale * 0.05 * std::max(0.1, std::fabs(xx[i]));
+              fmax = 0;
               if (!ridders(g, xx[i], h0, num, err) || !std::isfinite(num)) continue;
               double s = std::max(std::fabs(analytic), std::fabs(num));
+              // noise floor of the difference quotient (smallest step used is h0/1.4^7): when the derivative is far below it (e.g.
+              // gamma_inc(50, 3) = 6e62 with d/dx = -1e22: all samples are the same double) numerical differentiation says nothing
+              if (1e-14 * fmax / (h0 / 10.6) > 1e-4 * s) continue;
               if (err > 0.1 * std::max(s, 1e-8)) continue;
               if (std::fabs(analytic - num) <= 1e-3 * s + 1000 * err + 1e-8) { best = 1; break; }
               best = 0;
